@@ -106,8 +106,15 @@ type Ctx struct {
 }
 
 func newCtx(id, tier, phase, out string, seed int64) *Ctx {
+	base := phase // follow-up phases ("name@n") share the PRNG stream of their base phase
+	for i := 0; i < len(phase); i++ {
+		if phase[i] == '@' {
+			base = phase[:i]
+			break
+		}
+	}
 	return &Ctx{ID: id, Tier: tier, Seed: seed, Phase: phase, out: out,
-		Rng:    NewRand(uint64(seed)).Sub(id + "/" + phase),
+		Rng:    NewRand(uint64(seed)).Sub(id + "/" + base),
 		counts: map[string]int64{}, sets: map[string]map[uint64]struct{}{},
 		notes: map[string]any{}, vkeys: map[string]int{}, start: time.Now()}
 }
